@@ -93,7 +93,7 @@ class CliClient:
         self.proc = await asyncio.create_subprocess_exec(
             sys.executable, "-m", "asyncio_taskpool.control", *self.args,
             stdin=asyncio.subprocess.PIPE, stdout=asyncio.subprocess.PIPE,
-            stderr=asyncio.subprocess.STDOUT, env=self.env)
+            stderr=asyncio.subprocess.DEVNULL, env=self.env)   # its own error messages are not replies
         self.open = True
 
     async def poll(self):
@@ -117,7 +117,10 @@ class CliClient:
         if self.frozen is not None:      # after leaving, the CLI prints its own goodbye text
             return self.frozen
         n = 1 if "Connected to" in self.out else 0
-        return n + len(re.findall(r"> ([^\n>][^\n]*)\n", self.out))
+        # 'Disconnected from control server.' is the CLI's own message (printed when it notices
+        # that the server has closed the connection), not a reply of the server
+        return n + len([m for m in re.findall(r"> ([^\n>][^\n]*)\n", self.out)
+                        if m.strip() != "Disconnected from control server."])
 
     def server_closed(self):
         return self.proc is not None and self.proc.returncode is not None and self.open
@@ -189,7 +192,7 @@ async def scenario(kind, labels, expected, clients_kind, repo_src):
         for i, lab in enumerate(labels):
             w = lab.split()
             if w[0] == "start":
-                if task is None:
+                if task is None or task.done():     # first start, or restart after a completed stop
                     t0 = asyncio.get_running_loop().time()
                     task = await asyncio.wait_for(server.serve_forever(), STEP_TIMEOUT)
                     start_dt = asyncio.get_running_loop().time() - t0
